@@ -260,6 +260,7 @@ func init() {
 			m.block(func() bool { return !s.locked }, "Mutex.Lock")
 		}
 		s.locked = true
+		m.hbAcquire(s)
 		return nil
 	})
 	reg("(*sync.Mutex).TryLock", func(m *Machine, fr *frame, a []Value) Value {
@@ -268,6 +269,7 @@ func init() {
 			return m.tb.False()
 		}
 		s.locked = true
+		m.hbAcquire(s)
 		return m.tb.True()
 	})
 	reg("(*sync.Mutex).Unlock", func(m *Machine, fr *frame, a []Value) Value {
@@ -275,6 +277,7 @@ func init() {
 		if !s.locked {
 			panic(targetPanic{v: Iface{types.Typ[types.String], "fatal error: sync: unlock of unlocked mutex"}, stack: m.stackString()})
 		}
+		m.hbRelease(s)
 		s.locked = false
 		return nil
 	})
@@ -285,6 +288,7 @@ func init() {
 			m.block(func() bool { return !s.locked && s.readers == 0 }, "RWMutex.Lock")
 		}
 		s.locked = true
+		m.hbAcquire(s)
 		return nil
 	})
 	reg("(*sync.RWMutex).Unlock", func(m *Machine, fr *frame, a []Value) Value {
@@ -292,6 +296,7 @@ func init() {
 		if !s.locked {
 			panic(targetPanic{v: Iface{types.Typ[types.String], "fatal error: sync: Unlock of unlocked RWMutex"}, stack: m.stackString()})
 		}
+		m.hbRelease(s)
 		s.locked = false
 		return nil
 	})
@@ -302,6 +307,7 @@ func init() {
 			m.block(func() bool { return !s.locked }, "RWMutex.RLock")
 		}
 		s.readers++
+		m.hbAcquire(s)
 		return nil
 	})
 	reg("(*sync.RWMutex).RUnlock", func(m *Machine, fr *frame, a []Value) Value {
@@ -309,6 +315,7 @@ func init() {
 		if s.readers <= 0 {
 			panic(targetPanic{v: Iface{types.Typ[types.String], "fatal error: sync: RUnlock of unlocked RWMutex"}, stack: m.stackString()})
 		}
+		m.hbRelease(s)
 		s.readers--
 		return nil
 	})
@@ -326,6 +333,7 @@ func init() {
 		if !d.IsConst() {
 			m.unsupported("WaitGroup.Add with symbolic delta")
 		}
+		m.hbRelease(s)
 		s.n += d.Int()
 		if s.n < 0 {
 			panic(targetPanic{v: Iface{types.Typ[types.String], "sync: negative WaitGroup counter"}, stack: m.stackString()})
@@ -334,6 +342,7 @@ func init() {
 	})
 	reg("(*sync.WaitGroup).Done", func(m *Machine, fr *frame, a []Value) Value {
 		s := wgOf(m, a[0].(*Value))
+		m.hbRelease(s)
 		s.n--
 		if s.n < 0 {
 			panic(targetPanic{v: Iface{types.Typ[types.String], "sync: negative WaitGroup counter"}, stack: m.stackString()})
@@ -345,6 +354,7 @@ func init() {
 		if s.n > 0 {
 			m.block(func() bool { return s.n == 0 }, "WaitGroup.Wait")
 		}
+		m.hbAcquire(s)
 		return nil
 	})
 	reg("(*sync.Once).Do", func(m *Machine, fr *frame, a []Value) Value {
@@ -357,11 +367,14 @@ func init() {
 		if !s.done {
 			s.done = true
 			m.call(fr, 0, a[1], nil)
+			m.hbRelease(s)
 		}
+		m.hbAcquire(s)
 		return nil
 	})
 	reg("(*sync.Pool).Get", func(m *Machine, fr *frame, a []Value) Value {
 		p := a[0].(*Value)
+		m.hbAcquire(p)
 		if st := m.pools[p]; st != nil && len(*st) > 0 {
 			v := (*st)[len(*st)-1]
 			*st = (*st)[:len(*st)-1]
@@ -387,6 +400,7 @@ func init() {
 			m.pools[p] = st
 		}
 		*st = append(*st, a[1])
+		m.hbRelease(p)
 		return nil
 	})
 
@@ -444,6 +458,18 @@ func init() {
 		m.set(&s[0], a[1])
 		return nil
 	})
+	// every atomic operation synchronises on its word (happens-before tracking)
+	for name, f := range intrinsics {
+		if strings.HasPrefix(name, "sync/atomic.") || strings.HasPrefix(name, "(*sync/atomic.Value).") {
+			f := f
+			intrinsics[name] = func(m *Machine, fr *frame, a []Value) Value {
+				if p, ok := a[0].(*Value); ok {
+					m.hbBoth(p)
+				}
+				return f(m, fr, a)
+			}
+		}
+	}
 
 	// ---------- runtime ----------
 	reg("runtime.Gosched", func(m *Machine, fr *frame, a []Value) Value { m.yield(); return nil })
